@@ -1,13 +1,447 @@
-//! C19 — not implemented yet.
+//! C19 — `$ENV{NAME}` path expansion. Real code: `env_util::expand_env_vars` through the
+//! `verif_hooks::expand_env_vars` re-export (fast path), and its three call sites
+//! `FileAppender::builder().build`, `RollingFileAppender::builder().build` and
+//! `FixedWindowRoller::roll` (observation = which files exist afterwards).
+//!
+//! The process environment is controlled: at the first case every inherited variable is removed,
+//! and around each case exactly the variables the case carries are installed and removed again
+//! (`exec` is single-threaded).
+use crate::proto::*;
 use crate::rng::Rng;
+use log4rs::append::file::FileAppender;
+use log4rs::append::rolling_file::policy::compound::{
+    roll::{delete::DeleteRoller, fixed_window::FixedWindowRoller, Roll},
+    trigger::size::SizeTrigger,
+    CompoundPolicy,
+};
+use log4rs::append::rolling_file::RollingFileAppender;
+use std::path::{Path, PathBuf};
+use std::sync::atomic::{AtomicUsize, Ordering};
+use std::sync::OnceLock;
 
-pub fn gen(_rng: &mut Rng, _n: usize, _thorough: bool, _emit: &mut dyn FnMut(String)) {}
+/// Non-ASCII sample characters with their `char::is_alphanumeric` value — the same table as
+/// `sampleTable` in lean/Driver/C19.lean. Checked against Rust at start-up.
+const SAMPLES: &[(u32, bool)] = &[
+    (0xE9, true),
+    (0xDF, true),
+    (0x416, true),
+    (0x4E2D, true),
+    (0x1D4B3, true),
+    (0x663, true),
+    (0xB2, true),
+    (0xBD, true),
+    (0x20AC, false),
+    (0x2014, false),
+    (0xA0, false),
+    (0x1F600, false),
+    (0x301, false),
+];
 
-pub fn exec(_fields: &[&str]) -> String {
-    "unimplemented".to_owned()
+fn check_samples() {
+    for (cp, want) in SAMPLES {
+        let c = char::from_u32(*cp).expect("sample is a scalar value");
+        if c.is_alphanumeric() != *want {
+            eprintln!("C19: char::is_alphanumeric(U+{:X}) = {} but the model's table says {}", cp, !want, want);
+            std::process::exit(2);
+        }
+    }
+    for b in 0u8..128 {
+        let c = b as char;
+        if c.is_alphanumeric() != c.is_ascii_alphanumeric() {
+            eprintln!("C19: ASCII classification differs at {}", b);
+            std::process::exit(2);
+        }
+    }
 }
 
-/// child-process entry point (`verif-harness child c19 …`), for checks that need process-global state
+// ---------------------------------------------------------------------------------------------
+// generator
+// ---------------------------------------------------------------------------------------------
+const NAMES: &[&str] = &[
+    "A", "B", "C", "x", "VP_HOME", "VP_a.b", "_", "_x", "1A", "VP_\u{e9}", "\u{416}", "VP_\u{4e2d}", "n\u{b2}",
+    "\u{1d4b3}y", "\u{663}", "A0", "A1", "B2", "Bx", "VP_LOG.DIR",
+];
+const VALUES: &[&str] = &[
+    "", "v", "val", "E", "EN", "ENV", "ENV{", "NV{B}", "ENV{B}", "ENV{B", "V{B}", "{", "}", "{}", "x}", "B}", "\u{e9}",
+    "\u{4e2d}\u{416}x", "d/e", "w w", "x", "B", "A}", "{B}", "NV{", "\u{1f600}", "0", "_",
+];
+const VALUES_FS: &[&str] = &[
+    "", "v", "val", "E", "EN", "ENV{", "NV{B}", "ENV{B}", "V{B}", "{", "}", "{}", "x}", "B}", "\u{e9}", "\u{4e2d}x",
+    "d/e", "w w", "x", "B", "{B}", "0",
+];
+const LIT_ASCII: &[&str] = &[
+    "a", "log", "/", ".", "-", "x.log", "ENV", "NV{", "E", "ENV{", "V{B}", "NV{B}", "B}", "A}", " ", "_", "0", "logs/",
+    "ENV{B}", "x", "B",
+];
+const LIT_ASCII_FS: &[&str] = &["a", "log", "-", "x.log", "ENV", "NV{", "E", "ENV{", "V{B}", "NV{B}", "B}", "A}", "_", "0", "d/f", "ENV{B}", "x", "B"];
+const LIT_UNI: &[&str] = &["\u{e9}", "\u{4e2d}", "\u{20ac}", "\u{1f600}", "\u{1d4b3}", "\u{301}", "\u{a0}", "\u{2014}", "\u{df}\u{416}", "\u{663}\u{b2}\u{bd}"];
+const STRAY: &[&str] = &["$", "{", "}", "{}", "$ENV{", "$$", "$E", "$EN", "$ENV", "$ENV{$", "}}", "${", "$}"];
+
+fn unset_name(rng: &mut Rng, env: &[(String, String)]) -> String {
+    for _ in 0..20 {
+        let n = *rng.pick(NAMES);
+        if !env.iter().any(|e| e.0 == n) {
+            return n.to_owned();
+        }
+    }
+    "VP_NEVER_SET".to_owned()
+}
+
+fn set_name(rng: &mut Rng, env: &[(String, String)]) -> Option<String> {
+    if env.is_empty() {
+        None
+    } else {
+        Some(rng.pick(env).0.clone())
+    }
+}
+
+fn malformed(rng: &mut Rng, env: &[(String, String)]) -> String {
+    let n = set_name(rng, env).unwrap_or_else(|| "A".to_owned());
+    let m = set_name(rng, env).unwrap_or_else(|| "B".to_owned());
+    match rng.below(16) {
+        0 => "$ENV{}".to_owned(),
+        1 => format!("$ENV{{.{}}}", n),
+        2 => format!("$ENV{{-{}}}", n),
+        3 => format!("$ENV{{{}-{}}}", n, m),
+        4 => format!("$ENV{{{} {}}}", n, m),
+        5 => format!("$ENV{{{}\u{20ac}}}", n),
+        6 => format!("$ENV{{{}", n),
+        7 => format!("$ENV{{{}$ENV{{{}}}}}", n, m),
+        8 => format!("$ENV{{$ENV{{{}}}}}", n),
+        9 => format!("$ENV{{{}{{}}}}", n),
+        10 => format!("$ENV{{{}}}}}", n), // well-formed followed by a stray brace
+        11 => format!("$ENV{{{}\u{301}}}", n),
+        12 => format!("$ENV {{{}}}", n),
+        13 => format!("$env{{{}}}", n),
+        14 => format!("$ENV{{{}\u{a0}}}", n),
+        _ => format!("$ENV{{ {}}}", n),
+    }
+}
+
+/// F7 family: `$` + p + `$ENV{X}` + s where p ++ value(X) ++ s spells `ENV{Y}` for a set Y
+/// (the env map is extended accordingly)
+fn f7_family(rng: &mut Rng, env: &mut Vec<(String, String)>, fs: bool) -> String {
+    let y = set_name(rng, env).unwrap_or_else(|| {
+        env.push(("B".to_owned(), "v".to_owned()));
+        "B".to_owned()
+    });
+    let target: Vec<char> = format!("ENV{{{}}}", y).chars().collect();
+    let a = rng.below(target.len() as u64 + 1) as usize;
+    let b = rng.range(a as u64, target.len() as u64) as usize;
+    let p: String = target[..a].iter().collect();
+    let v: String = target[a..b].iter().collect();
+    let s: String = target[b..].iter().collect();
+    let _ = fs;
+    // a variable carrying exactly `v`
+    let x = match env.iter().find(|e| e.1 == v && e.0 != y) {
+        Some(e) => e.0.clone(),
+        None => {
+            let mut name = None;
+            for cand in ["A", "C", "x", "VP_HOME", "_x", "A0", "VP_F7"] {
+                if !env.iter().any(|e| e.0 == cand) {
+                    name = Some(cand.to_owned());
+                    break;
+                }
+            }
+            match name {
+                Some(n) => {
+                    env.push((n.clone(), v.clone()));
+                    n
+                }
+                None => return "$".to_owned(),
+            }
+        }
+    };
+    let tail = match rng.below(3) {
+        0 => format!("$ENV{{{}}}", y),
+        1 => format!("x$ENV{{{}}}", y),
+        _ => String::new(),
+    };
+    format!("${}$ENV{{{}}}{}{}", p, x, s, tail)
+}
+
+fn gen_env(rng: &mut Rng, max: u64, fs: bool) -> Vec<(String, String)> {
+    let k = rng.range(0, max);
+    let mut env: Vec<(String, String)> = Vec::new();
+    for _ in 0..k {
+        let n = *rng.pick(NAMES);
+        if env.iter().any(|e| e.0 == n) {
+            continue;
+        }
+        let v = if fs { *rng.pick(VALUES_FS) } else { *rng.pick(VALUES) };
+        let v = if rng.chance(1, 6) {
+            format!("{}{}", v, if fs { *rng.pick(VALUES_FS) } else { *rng.pick(VALUES) })
+        } else {
+            v.to_owned()
+        };
+        env.push((n.to_owned(), v));
+    }
+    env
+}
+
+fn gen_path(rng: &mut Rng, env: &mut Vec<(String, String)>, max_tokens: u64, fs: bool) -> String {
+    let m = rng.range(1, max_tokens);
+    let mut s = String::new();
+    let mut last_ref: Option<String> = None;
+    for _ in 0..m {
+        let t: String = match rng.below(20) {
+            0..=2 => (if fs { *rng.pick(LIT_ASCII_FS) } else { *rng.pick(LIT_ASCII) }).to_owned(),
+            3 => (*rng.pick(LIT_UNI)).to_owned(),
+            4..=5 => (*rng.pick(STRAY)).to_owned(),
+            6..=9 => match set_name(rng, env) {
+                Some(n) => {
+                    last_ref = Some(n.clone());
+                    format!("$ENV{{{}}}", n)
+                }
+                None => format!("$ENV{{{}}}", unset_name(rng, env)),
+            },
+            10..=11 => format!("$ENV{{{}}}", unset_name(rng, env)),
+            12 => match &last_ref {
+                // repeated reference
+                Some(n) => format!("$ENV{{{}}}", n),
+                None => "$".to_owned(),
+            },
+            13 => match (set_name(rng, env), set_name(rng, env)) {
+                // adjacent references
+                (Some(a), Some(b)) => format!("$ENV{{{}}}$ENV{{{}}}", a, b),
+                _ => "$ENV{".to_owned(),
+            },
+            14..=16 => malformed(rng, env),
+            17 => f7_family(rng, env, fs),
+            _ => "$".to_owned(),
+        };
+        s.push_str(&t);
+    }
+    s
+}
+
+fn enc_env(env: &[(String, String)]) -> String {
+    enc_list(",", &env.iter().map(|(k, v)| format!("{};{}", enc_str(k), enc_str(v))).collect::<Vec<_>>())
+}
+
+/// small-scope block: every token sequence up to `len` over a fixed alphabet, env A=E, B=v
+fn exhaustive(len: usize, emit: &mut dyn FnMut(String)) {
+    const ALPHA: &[&str] = &["$", "$ENV{", "A", "}", "NV{B}", "$ENV{A}", "$ENV{B}", "{", "E", "x"];
+    let env = enc_env(&[("A".to_owned(), "E".to_owned()), ("B".to_owned(), "v".to_owned())]);
+    let mut idx: Vec<usize> = Vec::new();
+    fn rec(idx: &mut Vec<usize>, len: usize, env: &str, emit: &mut dyn FnMut(String)) {
+        if !idx.is_empty() {
+            let s: String = idx.iter().map(|i| ALPHA[*i]).collect();
+            emit(format!("hook\t{}\t{}", env, enc_str(&s)));
+        }
+        if idx.len() == len {
+            return;
+        }
+        for i in 0..ALPHA.len() {
+            idx.push(i);
+            rec(idx, len, env, emit);
+            idx.pop();
+        }
+    }
+    rec(&mut idx, len, &env, emit);
+}
+
+pub fn gen(rng: &mut Rng, n: usize, thorough: bool, emit: &mut dyn FnMut(String)) {
+    let (max_env, max_tokens) = if thorough { (5, 14) } else { (3, 8) };
+    exhaustive(if thorough { 4 } else { 3 }, emit);
+    // every malformed form and every name/value pair once, deterministically
+    for n in NAMES {
+        for v in ["v", "", "\u{4e2d}"] {
+            let env = vec![((*n).to_owned(), v.to_owned())];
+            emit(format!("hook\t{}\t{}", enc_env(&env), enc_str(&format!("a/$ENV{{{}}}/$ENV{{{}}}.log", n, n))));
+            emit(format!("hook\t{}\t{}", enc_env(&[]), enc_str(&format!("a/$ENV{{{}}}/b", n))));
+        }
+    }
+    for i in 0..n {
+        // one case in 40 goes through a call site
+        let kind = if i % 40 == 39 { ["file", "rolling", "roller"][(i / 40) % 3] } else { "hook" };
+        let fs = kind != "hook";
+        let mut env = gen_env(rng, max_env, fs);
+        let body = gen_path(rng, &mut env, if fs { max_tokens.min(6) } else { max_tokens }, fs);
+        match kind {
+            "hook" => emit(format!("hook\t{}\t{}", enc_env(&env), enc_str(&body))),
+            "file" | "rolling" => emit(format!("{}\t{}\t{}", kind, enc_env(&env), enc_str(&format!("p{}q.log", body)))),
+            _ => {
+                let base = *rng.pick(&[0u64, 0, 1, 7]);
+                let count = rng.range(0, 3);
+                let rolls = rng.range(1, 4);
+                let pat = match rng.below(4) {
+                    0 => format!("p{}.{{}}.log", body),
+                    1 => format!("a{{}}{}q", body),
+                    2 => format!("d{{}}/p{}q", body),
+                    _ => format!("p{}$ENV{{A{{}}}}q.{{}}", body),
+                };
+                emit(format!("roller\t{}\t{}\t{}\t{}\t{}", enc_env(&env), enc_str(&pat), base, count, rolls));
+            }
+        }
+    }
+}
+
+// ---------------------------------------------------------------------------------------------
+// executor
+// ---------------------------------------------------------------------------------------------
+static SCRATCH: OnceLock<PathBuf> = OnceLock::new();
+static COUNTER: AtomicUsize = AtomicUsize::new(0);
+
+fn init() -> &'static PathBuf {
+    SCRATCH.get_or_init(|| {
+        check_samples();
+        let scratch = std::env::var_os("VERIF_SCRATCH").map(PathBuf::from).unwrap_or_else(std::env::temp_dir);
+        // the case's environment is the whole environment
+        let keys: Vec<_> = std::env::vars_os().map(|(k, _)| k).collect();
+        for k in keys {
+            if !k.is_empty() && !k.to_string_lossy().contains('=') {
+                std::env::remove_var(&k);
+            }
+        }
+        std::fs::create_dir_all(&scratch).ok();
+        scratch
+    })
+}
+
+fn dec_env(s: &str) -> Option<Vec<(String, String)>> {
+    dec_list(',', s)
+        .iter()
+        .map(|e| {
+            let mut it = e.split(';');
+            match (it.next(), it.next(), it.next()) {
+                (Some(k), Some(v), None) => Some((dec_str(k)?, dec_str(v)?)),
+                _ => None,
+            }
+        })
+        .collect()
+}
+
+fn list_files(root: &Path, rel: &str, out: &mut Vec<(String, Vec<u8>)>) {
+    let mut entries: Vec<_> = match std::fs::read_dir(root) {
+        Ok(r) => r.filter_map(|e| e.ok()).collect(),
+        Err(_) => return,
+    };
+    entries.sort_by_key(|e| e.file_name());
+    for e in entries {
+        let name = e.file_name().to_string_lossy().into_owned();
+        let rel2 = if rel.is_empty() { name.clone() } else { format!("{}/{}", rel, name) };
+        let p = e.path();
+        if p.is_dir() {
+            list_files(&p, &rel2, out);
+        } else {
+            out.push((rel2, std::fs::read(&p).unwrap_or_default()));
+        }
+    }
+}
+
+fn in_scratch(f: impl FnOnce() -> Result<(), String> + std::panic::UnwindSafe, with_content: bool) -> String {
+    let root = init();
+    let dir = root.join(format!("c19_{}_{}", std::process::id(), COUNTER.fetch_add(1, Ordering::SeqCst)));
+    if std::fs::create_dir_all(&dir).is_err() || std::env::set_current_dir(&dir).is_err() {
+        return "scratch-error".to_owned();
+    }
+    let r = guarded(f);
+    let mut files = Vec::new();
+    list_files(&dir, "", &mut files);
+    let _ = std::env::set_current_dir(root);
+    let _ = std::fs::remove_dir_all(&dir);
+    match r {
+        Err(_) => "PANIC".to_owned(),
+        Ok(Err(_)) => "err".to_owned(),
+        Ok(Ok(())) => {
+            let mut items: Vec<String> = files
+                .iter()
+                .map(|(p, c)| {
+                    if with_content {
+                        format!("{}={}", enc_str(p), c.iter().map(|b| b.to_string()).collect::<Vec<_>>().join(","))
+                    } else {
+                        enc_str(p)
+                    }
+                })
+                .collect();
+            items.sort();
+            if with_content {
+                format!("files:{}", enc_list(",", &items))
+            } else {
+                format!("created:{}", enc_list(",", &items))
+            }
+        }
+    }
+}
+
+pub fn exec(fields: &[&str]) -> String {
+    init();
+    if fields.len() < 3 {
+        return "bad-case".to_owned();
+    }
+    let kind = fields[0];
+    let (env, path) = match (dec_env(fields[1]), dec_str(fields[2])) {
+        (Some(e), Some(p)) => (e, p),
+        _ => return "bad-case".to_owned(),
+    };
+    if env.iter().any(|(k, v)| k.is_empty() || k.contains('=') || k.contains('\0') || v.contains('\0')) {
+        return "bad-case".to_owned();
+    }
+    // first entry wins, as in the model's association list
+    for (k, v) in env.iter().rev() {
+        std::env::set_var(k, v);
+    }
+    let obs = match (kind, fields.len()) {
+        ("hook", 3) => {
+            let p = path.clone();
+            match guarded(move || log4rs::verif_hooks::expand_env_vars(&p)) {
+                Ok(s) => format!("ok:{}", enc_str(&s)),
+                Err(_) => "PANIC".to_owned(),
+            }
+        }
+        ("file", 3) => {
+            let p = path.clone();
+            in_scratch(
+                move || {
+                    let a = FileAppender::builder().build(&p).map_err(|e| e.to_string())?;
+                    drop(a);
+                    Ok(())
+                },
+                false,
+            )
+        }
+        ("rolling", 3) => {
+            let p = path.clone();
+            in_scratch(
+                move || {
+                    let policy = CompoundPolicy::new(Box::new(SizeTrigger::new(1 << 30)), Box::new(DeleteRoller::new()));
+                    let a = RollingFileAppender::builder().build(&p, Box::new(policy)).map_err(|e| e.to_string())?;
+                    drop(a);
+                    Ok(())
+                },
+                false,
+            )
+        }
+        ("roller", 6) => {
+            let nums: Vec<Option<u32>> = fields[3..6].iter().map(|s| s.parse().ok()).collect();
+            match (nums[0], nums[1], nums[2]) {
+                (Some(base), Some(count), Some(rolls)) if rolls < 200 => {
+                    let p = path.clone();
+                    in_scratch(
+                        move || {
+                            let roller = FixedWindowRoller::builder().base(base).build(&p, count).map_err(|e| e.to_string())?;
+                            for k in 0..rolls {
+                                std::fs::write("cur.log", [k as u8]).map_err(|e| e.to_string())?;
+                                roller.roll(Path::new("cur.log")).map_err(|e| e.to_string())?;
+                            }
+                            Ok(())
+                        },
+                        true,
+                    )
+                }
+                _ => "bad-case".to_owned(),
+            }
+        }
+        _ => "bad-case".to_owned(),
+    };
+    for (k, _) in env.iter() {
+        std::env::remove_var(k);
+    }
+    obs
+}
+
+/// child-process entry point (unused by this property)
 pub fn child(_args: &[String]) -> i32 {
     2
 }
